@@ -1,6 +1,7 @@
 package checks
 
 import (
+	"runtime"
 	"context"
 	"errors"
 	"fmt"
@@ -100,7 +101,7 @@ func specResult(root *model.Node, op string) string {
 	f := model.Forest{root}
 	if treeHasInvalid(root) {
 		switch op {
-		case "dryrun", "dryrun.json", "mkdir", "verify", "mkdirfail", "verifyfail":
+		case "dryrun", "dryrun.json", "dryrun.massive.x5", "mkdir", "verify", "mkdirfail", "verifyfail":
 			return c13Rejected
 		}
 	}
@@ -142,6 +143,9 @@ func specResult(root *model.Node, op string) string {
 	case "json":
 		return f.String()
 	case "dryrun":
+		return model.DryRunReport(f, model.DefaultBranch, []string{".gz"})
+	case "dryrun.massive.x5":
+		// the massive dry run of the tree, five times in a row: the same report every time
 		return model.DryRunReport(f, model.DefaultBranch, []string{".gz"})
 	case "dryrun.json":
 		// Output with the dry-run option AND a (meaningless) encode option: still the dry-run report
@@ -393,6 +397,37 @@ func (t *liveTree) runOp(op, tmp string) string {
 			return "UNDECODABLE:" + err.Error()
 		}
 		return f.String()
+	case "dryrun.massive.x5":
+		// "repeating an operation repeats its result": error text included
+		var first string
+		var firstO Outcome
+		var firstRep []byte
+		for i := 0; i < 5; i++ {
+			var o Outcome
+			base := runtime.NumGoroutine()
+			rep := captureColorOutput(func() {
+				o = Guard(func() error {
+					return gtree.MkdirFromRoot(t.root, gtree.WithDryRun(), gtree.WithFileExtensions([]string{".gz"}), gtree.WithMassive(context.Background()))
+				})
+				c13Quiet.Quiesce(base)
+			})
+			cur := errStr(o.Err) + "|" + string(rep)
+			if o.Panic != nil {
+				return "PANIC"
+			}
+			if i == 0 {
+				first, firstO, firstRep = cur, o, rep
+			} else if cur != first {
+				return "NOT REPEATABLE: call 1 gave " + strconv.Quote(trunc(first, 120)) + ", call " + strconv.Itoa(i+1) + " gave " + strconv.Quote(trunc(cur, 120))
+			}
+		}
+		if treeHasInvalid(t.shape) {
+			return rejectedAs(firstO, false, len(firstRep))
+		}
+		if firstO.Err != nil {
+			return "ERR:" + errStr(firstO.Err)
+		}
+		return string(firstRep)
 	case "dryrun.json":
 		w := mon.NewRecWriter()
 		o := Guard(func() error {
@@ -490,6 +525,7 @@ func runC13(c *Ctx) bool {
 		{[]string{"mkdirfail", "mkdir", "verifyfail", "verify"}, L - 3},
 		{[]string{"mkdir", "verify"}, L - 2},
 		{[]string{"dryrun.json", "text.b3", "json"}, L - 2}, // dry run with a stray encode option, before and after other outputs
+		{[]string{"dryrun.massive.x5", "walk"}, L - 3},
 	}
 	for _, ps := range passes {
 		var hist []string
@@ -580,10 +616,12 @@ func runC13(c *Ctx) bool {
 	return runC13Concurrent(c)
 }
 
-var c13Ops = []string{"text", "text.b3", "text.b6", "walk", "iter", "json", "walk.massive", "text.massive", "json.massive", "walkfail", "iterbreak", "textfail", "jsonfail", "dryrun", "mkdir", "verify", "mkdirfail", "verifyfail", "dryrun.json"}
-var c13Names = []string{"a", "b", "c", "x.gz", "d e", "日本", "x/y"} // the last one is not a path element: mkdir, verify and dry run must reject the tree, whatever happened to it before
+var c13Ops = []string{"text", "text.b3", "text.b6", "walk", "iter", "json", "walk.massive", "text.massive", "json.massive", "walkfail", "iterbreak", "textfail", "jsonfail", "dryrun", "mkdir", "verify", "mkdirfail", "verifyfail", "dryrun.json", "dryrun.massive.x5"}
+var c13Names = []string{"a", "b", "c", "x.gz", "d e", "日本", "x/y", "p/q"} // the last two are not path elements: mkdir, verify and dry run must reject the tree, whatever happened to it before
 
 const c13Rejected = "REJECTED: invalid name, nothing created or reported"
+
+var c13Quiet = mon.NewLeakMonitor()
 
 func treeHasInvalid(n *model.Node) bool {
 	if n == nil {
